@@ -21,6 +21,7 @@ import fractions
 import itertools
 import logging
 import os
+import pickle
 import shutil
 import tempfile
 import threading
@@ -35,6 +36,7 @@ from forml.application import _strategy as strategy_mod
 from forml.io import asset
 from forml.provider.registry.filesystem import posix
 
+from vf.core import caches
 from vf.core.hyp import Campaign
 
 ID = 'C17'
@@ -304,10 +306,9 @@ def _build_abtest(spec):
 
 
 def _clear_slot_cache() -> None:
-    """ABTest.Slot._instance is a class-level lru_cache shared by every selector of the process."""
-    clear = getattr(application.ABTest.Slot._instance, 'cache_clear', None)
-    if clear is not None:
-        clear()
+    """Process-global memoisation of the strategy module (today ABTest.Slot._instance, a class-level lru_cache shared by
+    every selector of the process) - found by walking the module, not named: a change that moves it must be judged."""
+    caches.clear(strategy_mod, depth=3)
 
 
 def _serve(ctx, spec, selector, directories, variants, n, regs, ktag, extra=(), prefix='', shape=True):
@@ -485,7 +486,10 @@ def latest_spec(draw):
         commit(0, v)
     for _ in range(draw(st.integers(3, 20))):
         r = draw(st.integers(0, nreg - 1))
-        what = draw(st.sampled_from(['publish', 'publish', 'commit', 'commit', 'commit', 'select', 'select', 'select', 'tick', 'tick']))
+        what = draw(st.sampled_from(['publish', 'publish', 'commit', 'commit', 'commit', 'select', 'select', 'select', 'tick', 'tick', 'ship']))
+        if what == 'ship':  # the selector (a descriptor holding it) is pickled and the copy serves from here on
+            ops.append(['ship', None, None])
+            continue
         if what == 'publish':
             free = [v for v in pool if v not in published[r]]
             if free:
@@ -530,19 +534,33 @@ class _Stop(BaseException):
     """Raised by the substituted time.sleep to end the refresh loop after exactly one iteration."""
 
 
-def _make_latest(spec, stubs: list):
+def _stubbed_threading(stubs: list):
     def thread(*args, **kwargs):
         stub = _StubThread(*args, **kwargs)
         stubs.append(stub)
         return stub
 
+    return types.SimpleNamespace(RLock=threading.RLock, Thread=thread, Lock=threading.Lock)
+
+
+def _ship(selector, stubs: list):
+    """Pickle round trip of a (used) selector, its refresher thread being a stub again."""
+    original = strategy_mod.threading
+    strategy_mod.threading = _stubbed_threading(stubs)
+    try:
+        return pickle.loads(pickle.dumps(selector))
+    finally:
+        strategy_mod.threading = original
+
+
+def _make_latest(spec, stubs: list):
     release = None
     if spec['configured'] is not None:
         release = VERSIONS[spec['configured']]
         if spec.get('conf_as') == 'key':
             release = asset.Release.Key(release)
     original = strategy_mod.threading
-    strategy_mod.threading = types.SimpleNamespace(RLock=threading.RLock, Thread=thread, Lock=threading.Lock)
+    strategy_mod.threading = _stubbed_threading(stubs)
     try:
         return application.Latest(LPROJECT, release, spec['refresh'])
     finally:
@@ -590,7 +608,18 @@ def check_latest(ctx, spec):
     plan = []  # (op, reg, arg, expectation)
     last_select_gens = [None] * nreg
     nontrivial = False
+    warm = [None] * nreg  # what the selector held for a registry when it was shipped (until the copy's first select / tick)
     for op, r, arg in spec['ops']:
+        if op == 'ship':
+            # a copy starts like a fresh selector (it resolves the newest on its first select); one that carries the
+            # cache over is fine too - as long as its refresher runs again (judged at the copy's first select)
+            warm = list(cache)
+            cache = [None] * nreg
+            classes.add('latest:ship')
+            if any(w is not None for w in warm):
+                classes.add('latest:ship-used')
+            plan.append((op, None, None, None))
+            continue
         if op == 'publish':
             plan.append((op, r, arg, not published[r] or arg > max(published[r])))
             published[r].add(arg)
@@ -610,8 +639,10 @@ def check_latest(ctx, spec):
                 nontrivial = True
                 classes.add('latest:commit-between-selects')
             last_select_gens[r] = list(gens[r])
-            plan.append((op, r, arg, cache[r]))
+            plan.append((op, r, arg, cache[r], warm[r]))
+            warm[r] = None
         else:
+            warm = [None] * nreg
             for q in range(nreg):
                 if cache[q] is not None:
                     new = pick(q)
@@ -632,7 +663,15 @@ def check_latest(ctx, spec):
         selector = _make_latest(spec, stubs)
         stats = runtime.Stats()
         selected = False
-        for step, (op, r, arg, exp) in enumerate(plan):
+        for step, (op, r, arg, exp, *rest) in enumerate(plan):
+            if op == 'ship':
+                try:
+                    selector = _ship(selector, stubs)
+                except Exception as exc:
+                    ctx.fail_exc(spec, 'latest-pickle-raises', exc, [mode])
+                    return
+                selected = False
+                continue
             if op == 'publish':
                 _publish(ctx, directories[r], LPROJECT, VERSIONS[arg], exp)
             elif op == 'commit':
@@ -659,6 +698,13 @@ def check_latest(ctx, spec):
                     same = _same(got, want)
                 except Exception as exc:
                     ctx.fail_exc(spec, 'latest-select', exc, [mode])
+                    return
+                carried = rest[0] if rest else None
+                if not same and carried is not None and _same(got, asset.Instance(LPROJECT, VERSIONS[carried[0]], carried[1], directories[r])):
+                    # the shipped copy answers from the cache it carried over: allowed, but then it has to keep refreshing
+                    ctx.klass('latest:ship-warm')
+                    if not (stubs and stubs[-1].started == 1):
+                        ctx.fail(spec, 'latest-refresher', 'not-started-after-ship', f'step {step}: the shipped copy serves its carried-over {_describe(got)} and no refresher runs', [mode])
                     return
                 if not same:
                     newest = pick_now(plan, step, nreg, nver, configured)[r]
@@ -712,7 +758,7 @@ def _classify_pick(classes, gens, published, picked, configured) -> None:
 def pick_now(plan, upto, nreg, nver, configured):
     """What an uncached pick would return per registry after executing plan[:upto+1] (for the failure description)."""
     gens = [[0] * nver for _ in range(nreg)]
-    for op, r, arg, _ in plan[: upto + 1]:
+    for op, r, arg, *_ in plan[: upto + 1]:
         if op == 'commit':
             gens[r][arg] += 1
     out = []
